@@ -11,7 +11,7 @@ from ..oracles import bspl, advect
 
 PROPERTY = "C11"
 HANG_SECONDS = 900.0
-LINE_BUDGET = 3000000000
+LINE_BUDGET = 20000000000
 RULE = ("(line) Hypothesis-generated v spaces (4-16 points; clamped uniform cubic fast path, or general degree 1-5 on "
         "uniform or non-uniform breaks), c*dt of either sign incl. 0, sub-cell, multi-cell and larger than the domain, "
         "the three boundary modes (any other string must raise RuntimeError), r across the radial domain, arbitrary "
